@@ -244,6 +244,8 @@ func init() {
 	ext("os.Hostname", func(fr *frame, a []value) value { return tuple{"verif", iface{}} })
 	ext("syscall.Getenv", func(fr *frame, a []value) value { return tuple{"", false} })
 	ext("internal/cpu.Initialize", extNop)
+	// harness replays run under `go test`, where this is true
+	ext("testing.Testing", func(fr *frame, a []value) value { return true })
 
 	// ---- math ------------------------------------------------------------------
 	f1 := func(f func(float64) float64) externalFn {
